@@ -90,6 +90,17 @@ func c29Gen(r *rng.Rand, i int, tier string) interface{} {
 		if kind >= 12 && kind < 20 && j == 0 {
 			name = c29EpochLike[r.Intn(len(c29EpochLike))] // finding class: epoch-like second column
 		}
+		if j > 0 && r.Chance(12) { // a name differing from an earlier one only in letter case
+			prev := others[r.Intn(len(others))].Name
+			if r.Bool() {
+				name = strings.ToUpper(prev)
+			} else {
+				name = strings.ToLower(prev)
+			}
+			if strings.EqualFold(name, "epoch") {
+				name = "Open"
+			}
+		}
 		if used[name] && !r.Chance(15) { // duplicates only sometimes (AddColumn renames them)
 			name = fmt.Sprintf("%s%d", name, j)
 		}
